@@ -114,15 +114,15 @@ func DoomedScenarios(goAwayInReply bool) []Scenario {
 
 // KeepAliveScenarios (drivers with Heartbeats, ping-pong): a heartbeat is registered on a connection
 // (unanswered, or timed out) while one thread ends the request stream on a connection that must not
-// be reused and another one leases; the heartbeat's answer races a local reset; the keep-alive's
-// closing timeout (failCountToClose consecutive timeouts; 2 in the keep-alive units) races a lease
-// of the idle connection it closes. Heartbeats are SENT in the sequential prefix only.
+// be reused and another one leases; the heartbeat's answer or its (not yet closing) timeout races a
+// local reset. Heartbeats are SENT in the sequential prefix only.
 //
-// Not here: the keep-alive closing a connection that carries a request (covered sequentially by the
-// BFS). streamConn.Reset then ranges over a map holding the request stream and the heartbeat
-// stream(s); the rewrite set "proxy" does not make that iteration order a choice point, so the
-// executions would not be reproducible. (Where only heartbeat streams are registered at the close -
-// they have no listeners and behave alike - the order does not matter.)
+// Not here: the keep-alive CLOSING a connection (FailCountToClose-th timeout) concurrently with a
+// lease or a completion - covered sequentially by the BFS only. streamConn.Reset then ranges over a
+// map holding the heartbeat stream(s) and possibly a request stream; the rewrite set "proxy" does
+// not make that iteration order a choice point, so those executions are not reproducible (seen as
+// "replay divergence" with 3 preemptions). In the scenarios below a connection is closed only
+// after its request stream left the map, with heartbeat streams alone registered.
 func KeepAliveScenarios() []Scenario {
 	return []Scenario{
 		{"heartbeat unanswered: lease vs local reset of the only stream (max 2)", Cfg{2, 0}, []string{"new", "hb:0"}, [][]string{{"lreset:0"}, {"new"}}},
@@ -130,7 +130,6 @@ func KeepAliveScenarios() []Scenario {
 		{"heartbeat unanswered: lease vs completion on a connection that announced go-away (max 2)", Cfg{2, 0}, []string{"new", "goaway:0", "hb:0"}, [][]string{{"reply:0"}, {"new"}}},
 		{"heartbeat answer vs local reset (max 1)", Cfg{1, 0}, []string{"new", "hb:0"}, [][]string{{"hback:0"}, {"lreset:0"}}},
 		{"heartbeat timeout vs local reset vs lease (max 2)", Cfg{2, 0}, []string{"new", "hb:0"}, [][]string{{"hbto:0"}, {"lreset:0"}, {"new"}}},
-		{"closing heartbeat timeout vs lease of the idle connection (max 1)", Cfg{1, 0}, []string{"new", "reply:0", "hb:0", "hbto:0", "hb:0"}, [][]string{{"hbto:1"}, {"new"}}},
 	}
 }
 
